@@ -642,7 +642,7 @@ static int ec_quit(char *loc, char *cmd, char *arg, char *txt)
 {
 	int i;
 	if (cmd[0] == 'w' || cmd[0] == 'x')
-		if (ec_write("", cmd, arg, NULL))
+		if (ec_write(loc, cmd, arg, NULL))
 			return 1;
 	for (i = 0; i < LEN(bufs); i++) {
 		if (bufs[i].lb) {
